@@ -20,7 +20,7 @@ TECHNIQUE = 'property-based testing (Hypothesis): generated contention-rich mode
 LEVEL_TEXT = 'Generated-input search with invariant oracles over three live snapshots per step plus the logs; not a proof.'
 LEVEL_NOTE = "Trusts the step observer and the builder; absence of a resource is taken from the spec's absence lists."
 
-CFG = gen.Cfg(unit_time=6, warm_modes=["morph", "graft", "carry", "append", "nolog"], warm=3, onesided=4, facilities=True, max_workers=4, min_tasks=2, max_time=[40, 80], p_auto=12, abs_p=2, abs_size=6, abs_max=12,
+CFG = gen.Cfg(unit_time=6, warm_modes=["morph", "graft", "carry", "append", "nolog", "cutrerun"], warm=3, onesided=4, facilities=True, max_workers=4, min_tasks=2, max_time=[40, 80], p_auto=12, abs_p=2, abs_size=6, abs_max=12,
               work_pool=[0.0, 0.5, 1.0, 1.0, 2.0, 2.0, 3.0, 4.0])
 
 
